@@ -191,7 +191,7 @@ pub fn rc_finished_ok() {
     vassert!(rd.pos == 0, "is_finished_ok consumes nothing");
 }
 
-//@ harness props=C01 tier=quick unwind=10 mem_gb=4 timeout=600
+//@ harness props=C01 tier=thorough optional=yes unwind=10 mem_gb=8 timeout=1800
 //@ bound: 3-bit forward tree and 3-bit reverse tree, real arithmetic, every (range,code), probs in 31..=2017, 3 symbolic bytes
 #[cfg_attr(kani, kani::proof)]
 pub fn rc_bittree_real() {
